@@ -135,7 +135,7 @@ Proof.
   intros t bi tid (Hl1 & Hl2 & Hn & Hr & Hc) Hb. unfold go_lids_Table_HasTIDInPrevBlock, has_prev, two32z in *.
   destruct bi as [|p]; [reflexivity|].
   replace (Z.of_nat (S p) =? 0) with false by lia.
-  replace (u32 (Z.of_nat (S p) - 1)) with (Z.of_nat p) by (rewrite u32_small; lia).
+  replace (GoSem.u32 (Z.of_nat (S p) - 1)) with (Z.of_nat p) by (rewrite u32_small; lia).
   unfold ztable. cbn [go_Table_MaxTIDs]. rewrite len_zl, idx_zl.
   replace ((Z.of_nat p <? 0) || (Z.of_nat (length (t_max t)) <=? Z.of_nat p)) with false by lia.
   rewrite eqb_of_N. destruct (nthN (t_max t) p =? tid)%N; reflexivity.
@@ -151,7 +151,7 @@ Proof.
   destruct (Nat.eqb_spec (length (t_min t)) (S bi)) as [E|E].
   - replace (Z.of_nat (length (t_min t)) - 1 =? Z.of_nat bi) with true by lia. reflexivity.
   - replace (Z.of_nat (length (t_min t)) - 1 =? Z.of_nat bi) with false by lia.
-    replace (u32 (Z.of_nat bi + 1)) with (Z.of_nat (S bi)) by (rewrite u32_small; lia).
+    replace (GoSem.u32 (Z.of_nat bi + 1)) with (Z.of_nat (S bi)) by (rewrite u32_small; lia).
     rewrite gen_GetAdjustedMinTID_refines by (assumption || lia). cbn [bind].
     rewrite eqb_of_N. destruct (adj_min t (S bi) =? tid)%N; reflexivity.
 Qed.
@@ -174,7 +174,7 @@ Proof.
       * rewrite E2. rewrite Z.eqb_refl. reflexivity.
       * match goal with |- (if ?c then _ else _) = _ => replace c with false by lia end.
         cbn [res_out]. rewrite u32_small by lia. reflexivity.
-    + intros h Hh. rewrite len_zl, idx_zl.
+    + intros h Hh. rewrite ?len_zl, idx_zl.
       replace ((Z.of_nat h <? 0) || (Z.of_nat (length (t_max t)) <=? Z.of_nat h)) with false by lia.
       rewrite leb_of_N. reflexivity.
     + lia.
@@ -215,9 +215,9 @@ Qed.
 Lemma slice_firstn : forall (l : list Z) (k : nat), slice l 0 (Z.of_nat k) = firstn k l.
 Proof. intros. unfold slice. cbn [Z.to_nat skipn]. rewrite Z.sub_0_r, Nat2Z.id. reflexivity. Qed.
 Lemma zl_skipn : forall k l, skipn k (zl l) = zl (skipn k l).
-Proof. intros. unfold zl. symmetry. apply skipn_map. Qed.
+Proof. intros. unfold zl. apply skipn_map. Qed.
 Lemma zl_firstn : forall k l, firstn k (zl l) = zl (firstn k l).
-Proof. intros. unfold zl. symmetry. apply firstn_map. Qed.
+Proof. intros. unfold zl. apply firstn_map. Qed.
 
 Lemma search_ge : forall (l : list N) (lo : N), Z.of_nat (length l) < two32z ->
   sort_Search (len (zl l)) (fun i => if (i <? 0) || (len (zl l) <=? i) then GoSem.Panic else Val (Z.of_N lo <=? idx (zl l) i)) =
@@ -236,48 +236,44 @@ Proof.
   rewrite idx_zl, ltb_of_N. reflexivity.
 Qed.
 
-Lemma cut_left_gen : forall (l : list N) (lo : N), Z.of_nat (length l) < two32z ->
-  bind (sort_Search (len (zl l)) (fun i => if (i <? 0) || (len (zl l) <=? i) then GoSem.Panic else Val (Z.of_N lo <=? idx (zl l) i)))
-       (fun r => let left_ := r in
-                 if (left_ <? 0) || (len (zl l) <? left_) || (len (zl l) <? len (zl l)) then GoSem.Panic
-                 else Val (slice (zl l) left_ (len (zl l)))) = Val (zl (cut_left lo l)).
-Proof.
-  intros l lo Hn. rewrite search_ge by exact Hn. cbn [bind]. cbv zeta.
-  pose proof (bsearch_le (length l) (fun i => (lo <=? nthN l i)%N) 0 (length l) ltac:(lia)) as Hb.
-  fold (sort_search (length l) (fun i => (lo <=? nthN l i)%N)) in Hb.
-  rewrite len_zl at 1 2 3.
-  match goal with |- (if ?c then _ else _) = _ => replace c with false by lia end.
-  rewrite slice_skipn by (unfold zl; rewrite map_length; lia). rewrite zl_skipn. reflexivity.
-Qed.
-Lemma cut_right_gen : forall (l : list N) (hi : N), Z.of_nat (length l) < two32z ->
-  bind (sort_Search (len (zl l)) (fun i => if (i <? 0) || (len (zl l) <=? i) then GoSem.Panic else Val (Z.of_N hi <? idx (zl l) i)))
-       (fun r => let right_ := r in
-                 if (0 <? 0) || (right_ <? 0) || (len (zl l) <? right_) then GoSem.Panic
-                 else Val (slice (zl l) 0 right_)) = Val (zl (cut_right hi l)).
-Proof.
-  intros l hi Hn. rewrite search_gt by exact Hn. cbn [bind]. cbv zeta.
-  pose proof (bsearch_le (length l) (fun i => (hi <? nthN l i)%N) 0 (length l) ltac:(lia)) as Hb.
-  fold (sort_search (length l) (fun i => (hi <? nthN l i)%N)) in Hb.
-  rewrite len_zl.
-  match goal with |- (if ?c then _ else _) = _ => replace c with false by lia end.
-  rewrite slice_firstn, zl_firstn. reflexivity.
-Qed.
+Lemma sort_search_le : forall n f, (sort_search n f <= n)%nat.
+Proof. intros. unfold sort_search. pose proof (bsearch_le n f 0 n ltac:(lia)). lia. Qed.
 
 Definition narrow_out (r : option (list N * bool)) : outcome (list Z * bool) :=
   match r with Some (l, t) => Val (zl l, t) | None => GoSem.Panic end.
 
+Lemma nth_last_N : forall (l : list N) d, nth (length l - 1) l d = last l d.
+Proof.
+  induction l as [|a [|b r] IH]; intros d; try reflexivity.
+  specialize (IH d). cbn [length] in *. replace (S (S (length r)) - 1)%nat with (S (length r)) by lia.
+  replace (S (length r) - 1)%nat with (length r) in IH by lia. cbn [nth last] in *. exact IH.
+Qed.
+
 Lemma idx_last : forall (l : list N), l <> [] -> idx (zl l) (Z.of_nat (length l) - 1) = Z.of_N (lastN l).
 Proof.
   intros l Hl. replace (Z.of_nat (length l) - 1) with (Z.of_nat (length l - 1)) by (destruct l; [contradiction|cbn [length]; lia]).
-  rewrite idx_zl. unfold nthN, lastN. f_equal.
-  rewrite <- (app_removelast_last 0%N Hl) at 2.
-  assert (Hlen : length (removelast l) = (length l - 1)%nat).
-  { rewrite (app_removelast_last 0%N Hl) at 2. rewrite app_length. cbn [length]. lia. }
-  rewrite app_nth2 by lia. rewrite Hlen, Nat.sub_diag. reflexivity.
+  rewrite idx_zl. unfold nthN, lastN. f_equal. apply nth_last_N.
 Qed.
 
 Lemma cut_left_len : forall lo l, (length (cut_left lo l) <= length l)%nat.
 Proof. intros. unfold cut_left. rewrite skipn_length. lia. Qed.
+
+(* the guard of an index / slice expression that the bounds in the context rule out *)
+Ltac guard_false :=
+  match goal with |- context [if ?c then GoSem.Panic else _] => replace c with false by lia end.
+(* left := sort.Search(len(lids), lids[i] >= minLID); lids = lids[left:] *)
+Ltac do_cut_left l lo :=
+  rewrite (search_ge l lo) by assumption; cbn [bind];
+  pose proof (sort_search_le (length l) (fun i => (lo <=? nthN l i)%N));
+  rewrite ?(len_zl l); guard_false; rewrite <- ?(len_zl l);
+  rewrite slice_skipn by (unfold zl; rewrite map_length; lia); rewrite zl_skipn;
+  fold (cut_left lo l); cbn [bind].
+(* right := sort.Search(len(lids), lids[i] > maxLID); lids = lids[:right] *)
+Ltac do_cut_right l hi :=
+  rewrite (search_gt l hi) by (unfold two32z in *; lia); cbn [bind];
+  pose proof (sort_search_le (length l) (fun i => (hi <? nthN l i)%N));
+  rewrite ?(len_zl l); guard_false;
+  rewrite slice_firstn, zl_firstn; fold (cut_right hi l); cbn [bind].
 
 (* IteratorAsc.narrowLIDsRange = narrow_asc (asc_loop / iter_asc: C03_lids_roundtrip), the empty chunk panics *)
 Lemma gen_narrowLIDsRange_asc_refines : forall lo hi l try, Z.of_nat (length l) < two32z ->
@@ -289,7 +285,7 @@ Proof.
   - reflexivity.
   - rewrite <- El in *. assert (Hne : l <> []) by (rewrite El; discriminate).
     assert (Hlen : (0 < length l)%nat) by (rewrite El; cbn [length]; lia).
-    unfold two32z in Hn. rewrite (len_zl l).
+    pose proof Hn as Hn'. unfold two32z in Hn'. rewrite (len_zl l).
     replace ((0 <? 0) || (Z.of_nat (length l) <=? 0)) with false by lia.
     replace (idx (zl l) 0) with (Z.of_N first) by (rewrite El; reflexivity).
     rewrite ltb_of_N. destruct (hi <? first)%N; [reflexivity|].
@@ -297,15 +293,11 @@ Proof.
     replace ((Z.of_nat (length l) - 1 <? 0) || (Z.of_nat (length l) <=? Z.of_nat (length l) - 1)) with false by lia.
     rewrite idx_last by exact Hne. rewrite ltb_of_N. destruct (lastN l <? lo)%N; [reflexivity|].
     rewrite ltb_of_N, leb_of_N. rewrite <- (len_zl l).
-    destruct (first <? lo)%N.
-    + rewrite (cut_left_gen l lo) by (unfold two32z; exact Hn). cbn [bind].
-      pose proof (cut_left_len lo l) as Hcl.
-      destruct (hi <=? lastN l)%N.
-      * rewrite (cut_right_gen (cut_left lo l) hi) by (unfold two32z; lia). reflexivity.
-      * reflexivity.
-    + cbn [bind]. destruct (hi <=? lastN l)%N.
-      * rewrite (cut_right_gen l hi) by (unfold two32z; exact Hn). reflexivity.
-      * reflexivity.
+    pose proof (cut_left_len lo l) as Hcl.
+    destruct (first <? lo)%N; [do_cut_left l lo|cbn [bind]];
+      (destruct (hi <=? lastN l)%N; [|reflexivity]).
+    + do_cut_right (cut_left lo l) hi. reflexivity.
+    + do_cut_right l hi. reflexivity.
 Qed.
 
 Lemma gen_narrowLIDsRange_desc_refines : forall lo hi l try, Z.of_nat (length l) < two32z ->
@@ -317,7 +309,7 @@ Proof.
   - reflexivity.
   - rewrite <- El in *. assert (Hne : l <> []) by (rewrite El; discriminate).
     assert (Hlen : (0 < length l)%nat) by (rewrite El; cbn [length]; lia).
-    unfold two32z in Hn. rewrite (len_zl l).
+    pose proof Hn as Hn'. unfold two32z in Hn'. rewrite (len_zl l).
     replace ((0 <? 0) || (Z.of_nat (length l) <=? 0)) with false by lia.
     replace (idx (zl l) 0) with (Z.of_N first) by (rewrite El; reflexivity).
     rewrite ltb_of_N. destruct (hi <? first)%N; [reflexivity|].
@@ -325,15 +317,11 @@ Proof.
     replace ((Z.of_nat (length l) - 1 <? 0) || (Z.of_nat (length l) <=? Z.of_nat (length l) - 1)) with false by lia.
     rewrite idx_last by exact Hne. rewrite ltb_of_N. destruct (lastN l <? lo)%N; [reflexivity|].
     rewrite ltb_of_N, leb_of_N. rewrite <- (len_zl l).
-    destruct (first <? lo)%N.
-    + rewrite (cut_left_gen l lo) by (unfold two32z; exact Hn). cbn [bind].
-      pose proof (cut_left_len lo l) as Hcl.
-      destruct (hi <=? lastN l)%N.
-      * rewrite (cut_right_gen (cut_left lo l) hi) by (unfold two32z; lia). reflexivity.
-      * reflexivity.
-    + cbn [bind]. destruct (hi <=? lastN l)%N.
-      * rewrite (cut_right_gen l hi) by (unfold two32z; exact Hn). reflexivity.
-      * reflexivity.
+    pose proof (cut_left_len lo l) as Hcl.
+    destruct (first <? lo)%N; [do_cut_left l lo|cbn [bind]];
+      (destruct (hi <=? lastN l)%N; [|reflexivity]).
+    + do_cut_right (cut_left lo l) hi. reflexivity.
+    + do_cut_right l hi. reflexivity.
 Qed.
 
 (* ------------------------------------------------------------------ token.TableEntry *)
@@ -343,7 +331,7 @@ Definition entry_ok (e : tentry) : Prop :=
 Lemma gen_getLastTID_refines : forall e, entry_ok e ->
   go_token_TableEntry_getLastTID (zentry e) = Z.of_N (te_tid e + te_cnt e - 1).
 Proof.
-  intros e (H1 & H2 & H3 & H4). unfold go_token_TableEntry_getLastTID, zentry, u32.
+  intros e (H1 & H2 & H3 & H4). unfold go_token_TableEntry_getLastTID, zentry, GoSem.u32.
   cbn [go_TableEntry_StartTID go_TableEntry_ValCount].
   destruct (Z.eq_dec (Z.of_N (te_tid e) + Z.of_N (te_cnt e)) 4294967296) as [E|E].
   - rewrite E. change (4294967296 mod 4294967296) with 0. change ((0 - 1) mod 4294967296) with 4294967295. lia.
@@ -366,7 +354,7 @@ Lemma gen_getIndexInTokensBlock_refines : forall e tid, (te_tid e <= tid)%N -> (
   (te_sidx e + tid - te_tid e < 4294967296)%N ->
   go_token_TableEntry_getIndexInTokensBlock (zentry e) (Z.of_N tid) = Z.of_N (te_sidx e + tid - te_tid e).
 Proof.
-  intros e tid H1 H2 H3. unfold go_token_TableEntry_getIndexInTokensBlock, zentry, u32.
+  intros e tid H1 H2 H3. unfold go_token_TableEntry_getIndexInTokensBlock, zentry, GoSem.u32.
   cbn [go_TableEntry_StartIndex go_TableEntry_StartTID].
   rewrite Zminus_mod_idemp_l. rewrite Z.mod_small by lia. lia.
 Qed.
